@@ -1,6 +1,6 @@
 SPECIFICATION Spec
 CONSTANTS
-  MaxN = 4
+  MaxN = 5
   NS = 2
   AdvMode = "keys"
 INVARIANT CallOK
